@@ -40,7 +40,7 @@ def gen_call(rng):
 
 
 def run(ctx, res):
-    res.rule = ('sequences of 2-6 library calls in one process (materialize_set, and for a third of the calls materialize / materialize_oxigraph) -- different mappings, RDF and YARRRML files with and without %YAML directives, calls that fail, file and in-memory sources (DataFrame, list, dict, JSON string), different na_values / safe_percent_encoding / '
+    res.rule = ('sequences of 2-6 library calls in one process; calls sharing a directory (one unchanged mapping file under different file_path options, data files rewritten between calls); (materialize_set, and for a third of the calls materialize / materialize_oxigraph) -- different mappings, RDF and YARRRML files with and without %YAML directives, calls that fail, file and in-memory sources (DataFrame, list, dict, JSON string), different na_values / safe_percent_encoding / '
                 'only_printable_chars / output_format / partitioning, the same call repeated, the same Python objects passed again -- against each call made alone in a fresh process; '
                 'plus fingerprints of the caller\'s objects and hashes of every mapping / data file before and after each call; distinct = distinct sequence; non-trivial = sequence whose calls differ in an option or source')
     known = set(ctx.known)
@@ -171,6 +171,59 @@ def run(ctx, res):
                 else:
                     res.violations.append({'key': None, 'sig': 'caller-object', 'what': 'the caller\'s in-memory source was modified by the call: before %s after %s' % (str(r['before'])[:300], str(r['after'])[:300]),
                                            'replay': {'calls': calls[:ci + 1], 'index': ci}})
+    # ---- calls that share a directory: the same unchanged mapping file under another file_path option, and data files rewritten between calls
+    batch = family.Batch(ctx)
+    def tmq(k, v, ck='iri', tt=''):
+        return {'k': k, 'v': v, 'ck': ck, 'tt': tt}
+    for rep in range(ctx.scale(4, 30)):
+        def table(tag):
+            return [[tag + str(i + 1), ctx.rng.choice(['a', 'b', 'c']) + tag] for i in range(ctx.rng.choice([1, 2, 3]))]
+        ra, rb = table('x'), table('y')
+        c = {'cfg': {'nquads': False, 'mode': ctx.rng.choice(['NO', 'PARTIAL-AGGREGATIONS'])}, 'sources': [{'key': 'S0', 'kind': 'csv', 'cols': ['id', 'v'], 'rows': ra}],
+             'doc': [{'id': EX + 'tm/T', 'src': 'S0', 'nonasserted': False, 'subj': tmq('templ', EX + 'r/{id}'), 'sjoins': [], 'classes': [], 'sgraphs': [],
+                      'poms': [{'preds': [tmq('const', EX + 'p/v')], 'objs': [{'m': tmq('ref', 'v'), 'lang': None, 'dt': None, 'joins': []}], 'graphs': []}]}],
+             'file_path_option': 'S0'}
+        d = os.path.join(wd, 'fp%d' % rep); os.makedirs(d)
+        cfg_a = mapcase.materialise_files(c, d)
+        mapcase.write_csv(os.path.join(d, 'other.csv'), ['id', 'v'], rb)
+        cfg_b = cfg_a.replace('file_path=m_0.csv', 'file_path=other.csv')
+        if cfg_b == cfg_a:
+            res.disagreements.append({'what': 'file_path option not found in the generated configuration', 'replay': None}); continue
+        order = [cfg_a, cfg_b, cfg_a, cfg_b]
+        alone = [ctx.pool.map([{'fn': 'mat_seq', 'args': {'items': [{'config': x, 'cwd': d}]}}], timeout=300, fresh=True)[0] for x in (cfg_a, cfg_b)]
+        seq = ctx.pool.map([{'fn': 'mat_seq', 'args': {'items': [{'config': x, 'cwd': d} for x in order]}}], timeout=300, fresh=True)[0]
+        shutil.rmtree(d, ignore_errors=True)
+        res.evaluations += 1
+        res.count('shared-directory:file_path')
+        if not seq.get('ok') or not all(a.get('ok') for a in alone):
+            res.disagreements.append({'what': 'shared-directory job failed: %s' % str(seq)[:300], 'replay': None}); continue
+        exp = {cfg_a: family.impl_outcome({'ok': True, 'result': alone[0]['result'][0]}), cfg_b: family.impl_outcome({'ok': True, 'result': alone[1]['result'][0]})}
+        for i, (x, r) in enumerate(zip(order, seq['result'])):
+            got = family.impl_outcome({'ok': True, 'result': r})
+            if not family.same(got, exp[x]):
+                res.violations.append({'key': None, 'sig': 'file_path-history', 'what': 'call %d of [file_path=A, file_path=B, A, B] over one unchanged mapping file in one process gives %s, the same call alone gives %s'
+                                       % (i + 1, str(got)[:200], str(exp[x])[:200]), 'replay': {'calls': [c], 'index': i}})
+                break
+    from .c10 import gen_table_case, xml_safe
+    for k in ['csv', 'json', 'view', 'tsv'] * ctx.scale(1, 5):
+        ta, tb = xml_safe(gen_table_case(ctx.rng)), xml_safe(gen_table_case(ctx.rng))
+        for t in (ta, tb):
+            t['sources'][0]['kind'] = k
+        tb['doc'] = ta['doc']; tb['cfg'] = ta['cfg']
+        da, db = os.path.join(wd, 'rw_a_%d' % res.evaluations), os.path.join(wd, 'rw_b_%d' % res.evaluations)
+        os.makedirs(da); os.makedirs(db)
+        cfg_a = mapcase.materialise_files(ta, da); mapcase.materialise_files(tb, db)
+        r = ctx.pool.map([{'fn': 'mat_overwrite', 'args': {'config': cfg_a, 'dir_a': da, 'dir_b': db}}], timeout=240, fresh=True)[0]
+        fresh_b = batch.run([tb], want_spec=False)[0]['impl']
+        shutil.rmtree(da, ignore_errors=True); shutil.rmtree(db, ignore_errors=True)
+        res.evaluations += 1
+        res.count('shared-directory:rewritten-' + k)
+        if not r.get('ok'):
+            res.disagreements.append({'what': 'mat_overwrite failed: %s' % str(r)[:300], 'replay': None}); continue
+        second = family.impl_outcome({'ok': True, 'result': r['result'][1]})
+        if not family.same(second, fresh_b):
+            res.violations.append({'key': None, 'sig': 'rewritten:' + k, 'what': 'a %s source rewritten between two calls of one process: the second call gives %s, the same call alone gives %s'
+                                   % (k, str(second)[:200], str(fresh_b)[:200]), 'replay': {'calls': [tb], 'index': 1}})
     res.samples = [{'options': [c['cfg'] for c in seqs[0]], 'kinds': [[s.get('kind', 'csv') for s in c['sources']] for c in seqs[0]]}]
 
 
